@@ -141,6 +141,8 @@ func payloads() []payload {
 		{"cdata-inside", "S1E <![CDATA[S2E <now> &]]> S3E", 3, "<now>", false, ""},
 		{"cdata-then-newline", "<![CDATA[S1E & S2E]]>\n", 2, "", false, ""},
 		{"cdata-only", "<![CDATA[S1E]]>", 1, "", false, ""},
+		// white space that is not collapsible in HTML (ideographic space, em space, narrow no-break space) INSIDE the text: content
+		{"unicode-spaces-inside", "S1E\u3000\u3000S2E\u2003S3E\u202fx", 3, "", false, "S1E\u3000\u3000S2E\u2003S3E\u202fx"},
 		// a CDATA section FIRST and ordinary character data behind it: the escapes behind it are character data like anywhere else
 		{"cdata-first-then-escaped-markup", "<![CDATA[S1E]]> &lt;u&gt;S2E&lt;/u&gt; S3E", 3, "<u>S2E</u>", false, ""},
 		{"cdata-first-then-amp-entity", "<![CDATA[S1E]]> S2E &amp;lt; &amp;amp; S3E", 3, "", false, "&amp;lt; &amp;amp;"},
@@ -310,7 +312,9 @@ func runC04(res *Result, tier string, seed int64, replay string) {
 		if clause == "" && c.pl.escaped != "" && strings.Contains(html, c.pl.escaped) && !(rawHTMLSlot && strings.HasPrefix(c.pl.name, "cdata")) {
 			clause = "chardata-became-markup"
 		}
-		if clause == "" && c.pl.verbatim != "" && !strings.Contains(html, c.pl.verbatim) {
+		// (the preview text is normalised as a whole — runs of any white space become one blank — before it is hidden in the
+		// body: the white-space payload does not apply to it)
+		if clause == "" && c.pl.verbatim != "" && !strings.Contains(html, c.pl.verbatim) && !(c.s.name == "preview" && c.pl.name == "unicode-spaces-inside") {
 			clause = "chardata-decoded-twice"
 		}
 		if clause == "" && c.pl.markup && !c.s.head {
